@@ -18,6 +18,7 @@ import base64, hashlib, hmac, http.client, json, os, re, shutil, socket, struct,
 
 import checklib
 import blackbox
+import c19_privsm
 from blackbox import ToolError
 
 CID = "C19"
@@ -690,7 +691,7 @@ class World:
         return st, body
 
     # ---- fixture
-    def start(self):
+    def start(self, fixture=True):
         self.srv.build()
         for attempt in range(4):
             try:
@@ -728,6 +729,8 @@ class World:
             time.sleep(1)
         if not ok:
             raise ToolError("cannot bootstrap the administrator")
+        if not fixture:
+            return
         self.ensure_fixture(first=True)
         self.settle()
         self.base = self.digest()
@@ -1526,11 +1529,38 @@ def sweep(tier, product, s1, scratch, rep, deadline_at, only=None, shard=0, nsha
         world.srv.kill9()
 
 
+def privsm_api():
+    import types
+    g = globals()
+    return types.SimpleNamespace(**{k: g[k] for k in ("ToolError", "ADMIN", "SECRET", "T0", "TEXT", "_basic", "_url", "_bearer", "jwt",
+                                                      "only_errors", "violation", "h64")})
+
+
+def privilege_machine(tier, scratch, rep, deadline_at, replay=None):
+    """stage 3: explicit-state exploration of the GRANT/REVOKE machine on a server of its own (lib/c19_privsm.py)."""
+    world = World(tier, "basic", scratch, rep, deadline_at, name="privsm")
+    try:
+        world.start(fixture=False)
+        threads = int(os.environ.get("VERIF_C19_PRIVSM_THREADS", "16"))
+        c19_privsm.run(privsm_api(), world, rep, tier, deadline_at, threads=threads, replay=replay)
+        rep["counters"]["http_requests"] += world.n_http
+    finally:
+        try:
+            world.srv.stop()
+        except Exception:
+            pass
+        world.srv.kill9()
+
+
 def _worker(args):
     tier, product, s1, scratch, deadline_at, shard, nshard = args
     rep = new_report()
     try:
-        covered = sweep(tier, product, s1, scratch, rep, deadline_at, shard=shard, nshard=nshard)
+        if product == "privsm":
+            privilege_machine(tier, scratch, rep, deadline_at)
+            covered = set()
+        else:
+            covered = sweep(tier, product, s1, scratch, rep, deadline_at, shard=shard, nshard=nshard)
         rep["covered"] = sorted(covered or [])
     except ToolError as e:
         if rep["n_violations"]:
@@ -1554,7 +1584,7 @@ def _worker_main(job, outp):
     os.rename(outp + ".tmp", outp)
 
 
-NWORKERS = {"quick": {"basic": 5, "logkeeper": 3}, "thorough": {"basic": 6, "logkeeper": 3}}
+NWORKERS = {"quick": {"privsm": 1, "basic": 5, "logkeeper": 3}, "thorough": {"privsm": 1, "basic": 6, "logkeeper": 3}}
 
 
 def run(tier, replay):
@@ -1571,7 +1601,7 @@ def run(tier, replay):
             return run_replay(replay, s1, scratch, rep, time.time() + 900)
         blackbox.build_server(CID)
         deadline_at = time.time() + int(os.environ.get("VERIF_DEADLINE_S", deadline))
-        products = [p for p in os.environ.get("VERIF_C19_PRODUCTS", "basic,logkeeper").split(",") if p]
+        products = [p for p in os.environ.get("VERIF_C19_PRODUCTS", "privsm,basic,logkeeper").split(",") if p]
         jobs = []
         for product in products:
             n = int(os.environ.get("VERIF_C19_WORKERS_" + product.upper(), NWORKERS[tier][product]))
@@ -1651,7 +1681,9 @@ def run_replay(path, s1, scratch, rep, deadline_at):
     obj = json.load(open(path))
     r = obj.get("replay") or {}
     product = r.get("product", "basic")
-    if r.get("kind") in ("flip", "end"):
+    if str(r.get("kind", "")).startswith("privsm"):
+        privilege_machine("quick", scratch, rep, deadline_at, replay=r)
+    elif r.get("kind") in ("flip", "end"):
         world = World("quick", product, scratch, rep, deadline_at)
         try:
             world.start()
